@@ -46,6 +46,20 @@ KINDS = {
     "ID": dict(ty="N(Z)", ddp="Kennung", ref="Kennung Referenz", ret="eine Kennung", decl="Die Kennung", c="ddpint", prim=True),
     "NT": dict(ty="N(T)", ddp="Titel", ref="Titel Referenz", ret="einen Titel", decl="Der Titel", c="ddpstring", prim=False),
 }
+# lists of every element kind: "<plural> Liste" / "<plural> Listen Referenz"
+ELEMS = ["Z", "K", "B", "W", "C", "T", "V", "P", "ID", "NT"]
+PLURAL = {"Z": "Zahlen", "K": "Kommazahlen", "B": "Byte", "W": "Wahrheitswert", "C": "Buchstaben", "T": "Text", "V": "Variablen", "P": "Paar", "ID": "Kennung", "NT": "Titel"}
+CLIST = {"Z": "ddpintlist", "K": "ddpfloatlist", "B": "ddpbytelist", "W": "ddpboollist", "C": "ddpcharlist", "T": "ddpstringlist", "V": "ddpanylist", "P": "PaarListe",
+         "ID": "ddpintlist", "NT": "ddpstringlist"}
+for _e in ELEMS:
+    KINDS[_e + "L"] = dict(ty="L(%s)" % KINDS[_e]["ty"], ddp=PLURAL[_e] + " Liste", ref=PLURAL[_e] + " Listen Referenz", ret="eine %s Liste" % PLURAL[_e],
+                           decl="Die %s Liste" % PLURAL[_e], c=CLIST[_e], prim=False)
+LISTS = [e + "L" for e in ELEMS]
+# what the parser must record for a parameter of that kind (sigx spec)
+FRONT = {"Z": "Z", "K": "K", "B": "B", "W": "W", "C": "C", "T": "T", "V": "V", "P": "S:Paar", "ID": "D:Kennung(Z)", "NT": "A:Titel(T)", "GE": "G", "GL": "L(G)"}
+for _e in ELEMS:
+    FRONT[_e + "L"] = "L(%s)" % FRONT[_e]
+
 # parameters of GENERIC extern functions that mention the type parameter T (instantiated per call with Zahl or Text)
 GENERIC_KINDS = {
     "GL": dict(ty=None, ddp="T Liste", ref="T Listen Referenz", ret="eine T Liste", c="ddpgenericlist", prim=False),
@@ -53,6 +67,7 @@ GENERIC_KINDS = {
 }
 KINDS.update(GENERIC_KINDS)
 CORE = ["Z", "K", "B", "W", "C", "T", "ZL", "TL", "P", "V"]
+MORE_LISTS = [l for l in LISTS if l not in ("ZL", "TL")]
 
 
 def resolve_kind(k, T):
@@ -74,7 +89,7 @@ def resolve_fn(fn, T):
     r["ret"] = resolve_kind(fn["ret"], T) if fn["ret"] is not None else None
     r["retval"] = fn["retval"][T] if isinstance(fn["retval"], dict) else fn["retval"]
     return r
-ALLK = CORE + ["ID", "NT"]
+ALLK = CORE + ["ID", "NT"] + MORE_LISTS
 
 TEXTS = ["", "a", "häß€😀", "Hallo Welt", "x" * 17, "Der schnelle braune Fuchs springt hinüber", "ß"]
 ZS = [0, -1, 1, 42, I64MIN, I64MAX, 255, 256, -2**32, 2**31]
@@ -109,6 +124,9 @@ def rnd_value(rng, k, ret=False):
     if k == "V":
         ik = rng.choice(["Z", "T", "ZL"])
         return [k, rnd_value(rng, ik)]
+    if k in LISTS:
+        e = k[:-1]
+        return [k, [rnd_value(rng, e)[1] for _ in range(rng.choice([0, 1, 2, 3, 9]))]]
     raise ValueError(k)
 
 
@@ -130,10 +148,8 @@ def render(v, side):
         return str(x) if side == "c" else chr(x)
     if k in ("T", "NT"):
         return "T[%s]" % x
-    if k == "ZL":
-        return "[%d:%s]" % (len(x), "".join("%d," % e for e in x))
-    if k == "TL":
-        return "[%d:%s]" % (len(x), "".join("T[%s]," % e for e in x))
+    if k in LISTS:
+        return "[%d:%s]" % (len(x), "".join(render([k[:-1], e], side) + "," for e in x))
     if k == "P":
         return "{%d|T[%s]}" % (x[0], x[1])
     if k == "V":
@@ -147,10 +163,8 @@ def nblocks(v):
     k, x = v
     if k in ("T", "NT"):
         return 1 if x else 0
-    if k == "ZL":
-        return 1 if x else 0
-    if k == "TL":
-        return (1 if x else 0) + sum(1 for e in x if e)
+    if k in LISTS:
+        return (1 if x else 0) + sum(nblocks([k[:-1], e]) for e in x)
     if k == "P":
         return 1 if x[1] else 0
     if k == "V":
@@ -194,11 +208,8 @@ def ddp_expr(v, top=False):
         return ddp_char(x)
     if k in ("T", "NT"):
         return '"%s"' % x
-    if k == "ZL":
-        s = "eine leere Zahlen Liste" if not x else "eine Liste, die aus %s besteht" % ", ".join(ddp_int(e) for e in x)
-        return s if top else "(%s)" % s
-    if k == "TL":
-        s = "eine leere Text Liste" if not x else "eine Liste, die aus %s besteht" % ", ".join('"%s"' % e for e in x)
+    if k in LISTS:
+        s = "eine leere %s Liste" % PLURAL[k[:-1]] if not x else "eine Liste, die aus %s besteht" % ", ".join(ddp_expr([k[:-1], e]) for e in x)
         return s if top else "(%s)" % s
     if k == "P":
         s = "ein Paar aus %s und \"%s\"" % (ddp_int(x[0]), x[1])
@@ -222,7 +233,7 @@ def ddp_show(k, name):
         return ["Schreibe den Wahrheitswert %s." % name]
     if k == "C":
         return ["Schreibe den Buchstaben %s." % name]
-    return ["zeige_%s %s." % ({"T": "T", "NT": "T", "ZL": "ZL", "TL": "TL", "P": "P", "V": "V"}[k], name)]
+    return ["zeige_%s %s." % ({"NT": "T", "NTL": "TL"}.get(k, k), name)]
 
 
 DECLS = '''Binde "Duden/Ausgabe" ein.
@@ -292,6 +303,17 @@ Und kann so benutzt werden:
 
 '''
 
+def _ddp_list_helper(k):
+    e = k[:-1]
+    one = "(l an der Stelle i)"
+    return ("Die öffentliche Funktion zeige_%s mit dem Parameter l vom Typ %s, gibt nichts zurück, macht:\n" % (k, KINDS[k]["ref"])
+            + '\tSchreibe den Text "[".\n\tSchreibe die Zahl (die Länge von l).\n\tSchreibe den Text ":".\n'
+            + "\tFür jede Zahl i von 1 bis (die Länge von l), mache:\n" + "".join("\t\t%s\n" % st for st in ddp_show(e, one))
+            + '\t\tSchreibe den Text ",".\n\tSchreibe den Text "]".\nUnd kann so benutzt werden:\n\t"zeige_%s <l>"\n\n' % k)
+
+
+DECLS += "".join(_ddp_list_helper(k) for k in ("KL", "BL", "WL", "CL", "VL", "PL", "IDL"))
+
 PNAMES = ["pa", "pb", "pc", "pd", "pe", "pf"]
 
 
@@ -301,6 +323,8 @@ def ddp_extern_decl(fn, cfile):
     if ps:
         names = PNAMES[:len(ps)]
         types = [KINDS[k]["ref"] if r else KINDS[k]["ddp"] for k, r in ps]
+        # "(<Typ>)" is accepted for by-value parameters; never for T (a parenthesised name is looked up as a declared type)
+        types = [("(%s)" % t) if (not r and fn.get("paren") and i < len(fn["paren"]) and fn["paren"][i]) else t for i, ((k, r), t) in enumerate(zip(ps, types))]
         if len(ps) == 1:
             s += " mit dem Parameter %s vom Typ %s" % (names[0], types[0])
         else:
@@ -399,6 +423,32 @@ static void scr_V(ddpany *a) {
 '''
 
 
+def _c_list_helpers():
+    out = ["typedef struct { Paar *arr; ddpint len; ddpint cap; } PaarListe;"]
+    spec = {  # elem C type, print one element, blocks of one element, release one element, scribble
+        "K": ("ddpfloat", "pr_K(l->arr[i]);", None, None, "l->arr[0] = 777.0;"),
+        "B": ("ddpbyte", "pr_B(l->arr[i]);", None, None, "l->arr[0] = 77;"),
+        "W": ("ddpbool", "pr_W(&l->arr[i]);", None, None, "l->arr[0] = !l->arr[0];"),
+        "C": ("ddpchar", "pr_C(l->arr[i]);", None, None, "l->arr[0] = '#';"),
+        "V": ("ddpany", "pr_V(&l->arr[i]);", "blk_V(tag, p, &l->arr[i]);", "ddp_free_any(&l->arr[i]);", "scr_V(&l->arr[0]);"),
+        "P": ("Paar", "pr_P(&l->arr[i]);", "blk_P(tag, p, &l->arr[i]);", "ddp_free_string(&l->arr[i].t);", "scr_P(&l->arr[0]);"),
+    }
+    for e, (et, pr, bl, fr, sc) in spec.items():
+        lt, k = CLIST[e], e + "L"
+        out.append("static void pr_%s(const %s *l) {\n\tprintf(\"[%%lld:\", (long long)l->len);\n\tfor (ddpint i = 0; i < l->len; i++) { %s printf(\",\"); }\n\tprintf(\"]\");\n"
+                   "\tif (l->len > l->cap || (l->cap > 0 && l->arr == NULL)) printf(\"!cap\");\n}" % (k, lt, pr))
+        out.append("static void blk_%s(const char *tag, int p, const %s *l) {\n%s\tblk(tag, p, l->arr, l->cap * (long long)sizeof(%s));\n}"
+                   % (k, lt, ("\tfor (ddpint i = 0; i < l->len; i++) %s\n" % bl) if bl else "", et))
+        out.append("static void free_%s(%s *l) {\n%s\tddp_reallocate(l->arr, sizeof(%s) * l->cap, 0);\n}"
+                   % (k, lt, ("\tfor (ddpint i = 0; i < l->len; i++) %s\n" % fr) if fr else "", et))
+        out.append("static void scr_%s(%s *l) { if (l->len > 0) { %s } }" % (k, lt, sc))
+    return "\n".join(out) + "\n"
+
+
+C_PRELUDE += _c_list_helpers()
+C_ELEM = {"Z": "ddpint", "K": "ddpfloat", "B": "ddpbyte", "W": "ddpbool", "C": "ddpchar", "T": "ddpstring", "V": "ddpany", "P": "Paar", "ID": "ddpint", "NT": "ddpstring"}
+
+
 def c_int(z):
     return "(-9223372036854775807LL-1)" if z == I64MIN else "%dLL" % z
 
@@ -423,9 +473,14 @@ def c_make(v, dest, setter):
         return "*%s = (ddpchar)%d;" % (dest, x)
     if k in ("T", "NT"):
         return "%sT(%s, %s);" % (pre, dest, c_str(x))
-    if k == "ZL":
+    if k in ("ZL", "IDL"):
         return "%sZL(%s, %d, (const ddpint[]){%s});" % (pre, dest, len(x), ", ".join([c_int(e) for e in x] or ["0"]))
-    if k == "TL":
+    if k in LISTS and k not in ("TL", "NTL"):
+        e = k[:-1]
+        body = "".join(" " + c_make([e, ev], "(&d_->arr[%d])" % i, False) for i, ev in enumerate(x))
+        return "{ %s *d_ = %s; %sd_->len = %d; d_->cap = %d; d_->arr = %s;%s }" % (
+            CLIST[e], dest, ("free_%s(d_); " % k) if setter else "", len(x), len(x), ("DDP_ALLOCATE(%s, %d)" % (C_ELEM[e], len(x))) if x else "NULL", body)
+    if k in ("TL", "NTL"):
         return "%sTL(%s, %d, (const char *const[]){%s});" % (pre, dest, len(x), ", ".join([c_str(e) for e in x] or ['""']))
     if k == "P":
         return "%sP(%s, %s, %s);" % (pre, dest, c_int(x[0]), c_str(x[1]))
@@ -441,7 +496,7 @@ def c_make(v, dest, setter):
 
 
 def c_suffix(k):
-    return {"T": "T", "NT": "T", "ZL": "ZL", "TL": "TL", "P": "P", "V": "V"}[k]
+    return {"NT": "T", "NTL": "TL", "IDL": "ZL"}.get(k, k)
 
 
 def c_proto(fn):
@@ -554,8 +609,10 @@ def gen_call(rng, fn):
     for i, (k, r) in enumerate(fn["params"]):
         v = rnd_value(rng, k)
         modes = ["var"]
+        if k in ELEMS:
+            modes += ["elem"]
         if k in ("Z", "T"):
-            modes += ["elem", "field"]
+            modes += ["field"]
         if not r:
             modes += ["lit", "lit"]
         m = rng.choice(modes)
@@ -571,15 +628,12 @@ def gen_call(rng, fn):
         el = None
         if m == "elem":
             pos = rng.randrange(3)
-            if k == "Z":
-                others = [rng.choice(ZS) for _ in range(3)]
-            else:
-                others = [rng.choice(TEXTS) for _ in range(3)]
+            others = [rnd_value(rng, k)[1] for _ in range(3)]
             others[pos] = v[1]
             el = dict(pos=pos, items=others)
         elif m == "field":
             el = dict(other=(rng.choice(TEXTS) if k == "Z" else rng.choice(ZS)))
-        elif m == "var" and k in ("ZL", "TL") and len(v[1]) >= 2 and rng.random() < 0.6:
+        elif m == "var" and k in LISTS and len(v[1]) >= 2 and rng.random() < 0.6:
             el = dict(grown=True)   # built by appending: capacity > length
         args.append(dict(mode=m, value=v, extra=el))
     use = "bind"
@@ -590,6 +644,7 @@ def gen_call(rng, fn):
 
 def gen_function(rng, name, params, ret, ncalls=2):
     fn = dict(name=name, params=[list(p) for p in params], ret=ret)
+    fn["paren"] = [(not r) and k not in GENERIC_KINDS and rng.random() < 0.12 for k, r in params]
     generic = any(k in GENERIC_KINDS for k, _ in params) or ret in GENERIC_KINDS
     if generic:
         fn["generic"] = True
@@ -634,7 +689,7 @@ def gen_generic_signatures(rng, n):
 
 def gen_signatures(rng, n):
     """systematic part (every kind by value and by Referenz, every result kind, arity 0 and 1) + random arities 2..6"""
-    rets = CORE + [None, "ID", "NT"]
+    rets = CORE + [None, "ID", "NT"] + MORE_LISTS
     out = []
     for r in rets:
         out.append(([], r))
@@ -646,8 +701,8 @@ def gen_signatures(rng, n):
         out.append(([rng.choice(pk), p], rets[(i * 5 + 3) % len(rets)]))
     while len(out) < n:
         ar = rng.choice([2, 3, 3, 4, 4, 5, 6, 6])
-        pool = [(k, ref) for k in (CORE * 3 + ["ID", "NT"]) for ref in (False, True)]
-        out.append(([rng.choice(pool) for _ in range(ar)], rng.choice(CORE * 2 + [None, None, "ID", "NT"])))
+        pool = [(k, ref) for k in (CORE * 3 + ["ID", "NT"] + MORE_LISTS) for ref in (False, True)]
+        out.append(([rng.choice(pool) for _ in range(ar)], rng.choice(CORE * 2 + [None, None, "ID", "NT"] + MORE_LISTS)))
     return out[:max(n, len(rets) + 2 * len(pk))]
 
 
@@ -676,7 +731,7 @@ def build_caller(group, in_function):
                     if a.get("extra") and a["extra"].get("grown"):
                         decl.append("%s %s ist %s." % (KINDS[k]["decl"], nm, ddp_expr([k, v[1][:1]], top=True)))
                         for e_ in v[1][1:]:
-                            decl.append("Speichere %s verkettet mit %s in %s." % (nm, ddp_expr(["Z" if k == "ZL" else "T", e_]), nm))
+                            decl.append("Speichere %s verkettet mit %s in %s." % (nm, ddp_expr([k[:-1], e_]), nm))
                     else:
                         decl.append("%s %s ist %s." % (KINDS[k]["decl"], nm, ddp_expr(v, top=True)))
                     argx.append(nm)
@@ -690,7 +745,7 @@ def build_caller(group, in_function):
                         if d[4] == j:
                             d[3] = fn["newvals"][i] if r else fn["newvals"][j]
                 elif m == "elem":
-                    lk = "ZL" if k == "Z" else "TL"
+                    lk = k + "L"
                     items = list(a["extra"]["items"])
                     decl.append("%s %s ist %s." % (KINDS[lk]["decl"], nm, ddp_expr([lk, items], top=True)))
                     argx.append("(%s an der Stelle %d)" % (nm, a["extra"]["pos"] + 1))
@@ -729,7 +784,7 @@ def build_caller(group, in_function):
                 elif rk in ("T", "NT"):
                     body.append("Schreibe den Text %s." % cx)
                     line += fn["retval"][1]
-                elif rk in ("ZL", "TL"):
+                elif rk in LISTS:
                     body.append("Schreibe die Zahl (die Länge von %s)." % cx)
                     line += "%d" % len(fn["retval"][1])
                 elif rk == "P":
@@ -1232,6 +1287,8 @@ def header_probe(b, sc, model):
     ctext["GLIST"] = gm.group(1)
     for k, hdr, fnames in (("T", "ddpstring", ["str", "cap"]), ("ZL", "ddpintlist", ["arr", "len", "cap"]),
                            ("TL", "ddpstringlist", ["arr", "len", "cap"]), ("V", "ddpany", ["vtable_ptr", "value"]),
+                           ("KL", "ddpfloatlist", ["arr", "len", "cap"]), ("BL", "ddpbytelist", ["arr", "len", "cap"]), ("WL", "ddpboollist", ["arr", "len", "cap"]),
+                           ("CL", "ddpcharlist", ["arr", "len", "cap"]), ("VL", "ddpanylist", ["arr", "len", "cap"]),
                            ("GLIST", "ddpgenericlist", ["arr", "len", "cap"])):
         fs = fields(ctext[k])
         if len(fs) != len(fnames):
@@ -1271,12 +1328,15 @@ def c_proto_from_model(fn, cpart):
     if not m:
         return None
     sub = [("struct{void*;int64_t;int64_t;}", "ddpgenericlist"), ("struct{struct{char*;int64_t;}*;int64_t;int64_t;}", "ddpstringlist"), ("struct{int64_t*;int64_t;int64_t;}", "ddpintlist"),
+           ("struct{struct{ddpvtable*;union{void*;uint8_t[16];};}*;int64_t;int64_t;}", "ddpanylist"), ("struct{struct{int64_t;struct{char*;int64_t;};}*;int64_t;int64_t;}", "PaarListe"),
+           ("struct{double*;int64_t;int64_t;}", "ddpfloatlist"), ("struct{uint8_t*;int64_t;int64_t;}", "ddpbytelist"), ("struct{bool*;int64_t;int64_t;}", "ddpboollist"),
+           ("struct{int32_t*;int64_t;int64_t;}", "ddpcharlist"),
            ("struct{int64_t;struct{char*;int64_t;};}", "Paar"), ("struct{ddpvtable*;union{void*;uint8_t[16];};}", "ddpany"), ("struct{char*;int64_t;}", "ddpstring"),
            ("int64_t", "ddpint"), ("double", "ddpfloat"), ("uint8_t", "ddpbyte"), ("bool", "ddpbool"), ("int32_t", "ddpchar")]
 
     def nm(t):
         for a, b_ in sub:
-            t = t.replace(a, b_)
+            t = re.sub(r"\b%s\b" % a, b_, t) if re.match(r"^\w+$", a) else t.replace(a, b_)
         return t
     ps = [p for p in nm(m.group(3)).split(";") if p]
     return "%s %s(%s)" % (nm(m.group(2)), m.group(1), ", ".join(ps) if ps else "void")
@@ -1387,6 +1447,50 @@ def judge_run(run, g):
     return bad
 
 
+SIGX = None
+
+
+def judge_frontend(gdir, group):
+    """frontend tie: what parser.Parse records for every declared function (sigx over the declaring module) against the
+    signature that was spelled: extern/generic flag, result type, and per parameter name, type and IsReference."""
+    if not SIGX:
+        return []
+    p = subprocess.run([SIGX, os.path.join(gdir, "d.ddp")], capture_output=True, text=True, timeout=120)
+    table, nerr = {}, None
+    for l in p.stdout.splitlines():
+        f = l.split(" ")
+        if f[0] == "F":
+            table[f[1]] = f[2:]
+        elif f[0] == "E":
+            nerr = int(f[1])
+    bad = []
+    if p.returncode != 0 or nerr is None:
+        return [(group[0], "-", "parser.Parse fails on the declaring module: %s" % (p.stdout + p.stderr)[-400:])]
+    if nerr:
+        bad.append((group[0], "-", "parser.Parse reports %d diagnostic(s) on a well-formed declaring module" % nerr))
+    for fn in group:
+        want = ["extern=1", "generic=%d" % (1 if fn.get("generic") else 0), "ret=%s" % ("N" if fn["ret"] is None else FRONT[fn["ret"]])]
+        want += ["%s:%s:%d" % (n, FRONT[k], 1 if r else 0) for (k, r), n in zip(fn["params"], PNAMES)]
+        got = table.get(fn["name"])
+        if got != want:
+            if not got or len(got) != len(want):
+                bad.append((fn, "-", "the parser records %s for the declaration, which says %s" % (got, want)))
+                continue
+            i = [w != g_ for w, g_ in zip(want, got)].index(True)
+            if i >= 3:
+                bad.append((fn, want[i].split(":")[0], "parameter %s declared '%s': the parser records %s (name:type:IsReference), the declaration says %s"
+                            % (want[i].split(":")[0], ddp_param_spelling(fn, i - 3), got[i], want[i])))
+            else:
+                bad.append((fn, want[i].split("=")[0], "the parser records %s, the declaration says %s" % (got[i], want[i])))
+    return bad
+
+
+def ddp_param_spelling(fn, i):
+    k, r = fn["params"][i]
+    t = KINDS[k]["ref"] if r else KINDS[k]["ddp"]
+    return "(%s)" % t if (not r and fn.get("paren") and i < len(fn["paren"]) and fn["paren"][i]) else t
+
+
 def check_group(ck, b, model, sc, gi, group, in_function, opts, asan, stats, shrink=True, want_ir=True):
     if len(ck.violations) >= 10:   # systematically broken tree: enough replays, do not burn the time budget
         stats["skipped_groups"] = stats.get("skipped_groups", 0) + 1
@@ -1397,6 +1501,19 @@ def check_group(ck, b, model, sc, gi, group, in_function, opts, asan, stats, shr
     failed = []  # (class, canonical what, detail, run)
     if res["cc"]:
         failed.append(("callee", "gcc rejects or warns about the generated callee", res["cc"], None))
+    for fn, pname, detail in judge_frontend(gdir, group):
+        stats["frontend_mismatch"] = stats.get("frontend_mismatch", 0) + 1
+        f1 = dict(fn)
+        f1["calls"] = fn["calls"][:1]
+        key = "frontend-signature %s param=%s" % (sig_key(fn), pname)
+        if ck.violation(key, detail, dict(spec=dict(functions=[f1], in_function=in_function), declaration=ddp_extern_decl(fn, "callee.c"), detail=detail,
+                                          how="parser.Parse on the declaration; harness/go/cmd/sigx prints the recorded parameter table")):
+            os.makedirs(CORPUS, exist_ok=True)
+            import hashlib
+            sp = dict(functions=[f1], in_function=in_function)
+            with open(os.path.join(CORPUS, hashlib.sha1(json.dumps(sp, sort_keys=True, default=str).encode()).hexdigest()[:12] + ".json"), "w") as fh:
+                json.dump(sp, fh, ensure_ascii=False, default=str)
+    stats["frontend_compared"] = stats.get("frontend_compared", 0) + len(group)
     for run in res["runs"]:
         ck.count(len(g["calls"]))
         stats["runs"] += 1
@@ -1570,6 +1687,10 @@ def main():
     # the driver of the extracted model follows the (possibly regenerated) tables
     subprocess.run(["flock", os.path.join(vlib.COQ, ".make.lock"), "make", "--no-print-directory", "-C", os.path.join(vlib.VERIF, "extract"), "_build/c18"],
                    capture_output=True, text=True, timeout=600)
+    global SIGX
+    SIGX, lg = b.ensure_go("sigx")
+    if not SIGX:
+        ck.broken_obligation("frontend harness sigx does not build against /repo", lg)
     model = vlib.model_bin("c18")
     if not os.path.exists(model):
         ck.broken_obligation("extracted model driver extract/_build/c18 missing", "")
@@ -1586,7 +1707,7 @@ def main():
         check_group(ck, b, model, sc, 0, spec["functions"], spec["in_function"], dict(decl=[0, 2], **{"import": [0, 2]}), True, stats, shrink=False)
         ck.finish()
 
-    nsig = 150 if ck.quick else 3000
+    nsig = 170 if ck.quick else 3000
     per_group = 6 if ck.quick else 10
     sigs = gen_signatures(ck.rng, nsig)
     fns = [gen_function(ck.rng, "f_%d" % (i + 1), ps, ret) for i, (ps, ret) in enumerate(sigs)]
@@ -1636,7 +1757,7 @@ def main():
         ck.broken_obligation("the caller-side releases do not follow the model's call plan (the direct ownership judgement holds): " + stats["model_ledger_disagreements"][0],
                              "\n".join(stats["model_ledger_disagreements"][:10]))
     ck.cov.update(dict(
-        signatures=len(stats["sigs"]), functions=len(fns), corpus_functions=stats.get("corpus_functions", 0), skipped_groups=stats.get("skipped_groups", 0), groups=len(groups), executed_programs=stats["runs"], ledger_events=stats["ledger_events"],
+        signatures=len(stats["sigs"]), functions=len(fns), corpus_functions=stats.get("corpus_functions", 0), skipped_groups=stats.get("skipped_groups", 0), frontend_signatures_compared=stats.get("frontend_compared", 0), groups=len(groups), executed_programs=stats["runs"], ledger_events=stats["ledger_events"],
         model_cases=stats["model_cases"], ir_signatures_compared=stats["ir_compared"], arity=dict(sorted(stats["arity"].items())),
         param_kinds=dict(sorted(stats["param_kinds"].items())), ret_kinds=dict(sorted(stats["ret_kinds"].items())), exhaustive=False,
         rule="evaluation = one executed extern call (2 calls per function, both modules, per opt level); distinct non-trivial = distinct (signature, argument modes and values, result use); every call passes at least the call itself through the C callee and the ledger; systematic part: arity 0 with every result kind, arity 1 and last-of-2 with every kind by value and by Referenz; random part arity 2..6; generic extern functions (T = Zahl and T = Text per function, type tag first or last, with and without out-pointer); argument modes literal/temporary, variable, list element, Kombination field, same variable by value and by Referenz; result bound, consumed inline or dropped; callers at top level and inside a function"))
